@@ -150,6 +150,8 @@ func runMut(raw Sx) (Sx, Sx) {
 		{"/rootonly", []string{"200:R"}, true},
 		{"/a/reg", []string{"200:REG"}, true},
 		{"OPTIONS /a/x", []string{"200:"}, true},
+		{"OPTIONS /b/keep", []string{"200:"}, true}, // the filter walks the routes of the service whose routes are changing
+		{"OPTIONS /b/t", []string{"200:"}, true},
 		{"/b/t", []string{"200:BT", "404:"}, false},
 		{"/c/y", []string{"200:C", "404:"}, false},
 	}
